@@ -177,6 +177,13 @@ def main(argv):
             pre_infra.append(("gen/symops.py cannot extract the results of the public operations from the current headers "
                               "(does not compile with the symbolic scalar, branches on a scalar value, reads an "
                               "uninitialised scalar, throws or crashes)", out[-3000:]))
+    if os.path.exists(os.path.join(pipeline.COQ, f"Properties_{pid}_P.v")):
+        # coq/gen/PathGen_*.v (owners: C01 C02 C11 C12 C15): operations that branch on scalar values, run concolically
+        rc, out, _ = pipeline.sh([sys.executable, os.path.join(VERIF, "gen", "symops2.py")], timeout=900)
+        if rc != 0:
+            pre_infra.append(("gen/symops2.py cannot extract the per-path results of the public operations from the current "
+                              "headers (does not compile with the symbolic scalar, reads an uninitialised scalar, throws "
+                              "unexpectedly or crashes)", out[-3000:]))
     bad = pipeline.hygiene_gate()
     ok, thms, assumptions, plog = pipeline.prove(pid)
     obligations = len(thms) + 1        # + the correspondence relation
